@@ -18,7 +18,10 @@ NONTRIVIAL_RULE = ('1D: every duplicate-free non-empty order over N <= 4 (all ar
                    'range / ndarray, each with and without randomize_each_cycle; orders 0..k-1 on N > k cells; the num_cells '
                    'constructor; 2D: shapes <= 3x3 with every subset of <= 3 coordinates (every arrangement in the thorough '
                    'tier), given as list of tuples or tuple of tuples, random orders on shapes <= 4x4, Moore and von Neumann; '
-                   'one rule object reused for two evolve calls (1D and 2D); wrapped rules Script and Lin; T up to 3L+2. '
+                   'one rule object reused for two evolve calls (1D and 2D); the wrapped rule in every callable shape / '
+                   'return type of twins.RULE_DRESSINGS and the AsynchronousRule object as an instance of a '
+                   'behaviour-preserving user subclass; orders with NumPy-integer items; wrapped rules Script and Lin; '
+                   'T up to 3L+2. '
                    'non-trivial = the run returned arrays and at least one step rewrote a cell with a different value; '
                    'distinct = distinct case dicts')
 EXHAUSTIVE = {'quick': False, 'thorough': False}
@@ -132,7 +135,7 @@ def generate(rng, tier):
         if k > 8:
             T = rng.choice([k + 2, 2 * k + 1, rng.randint(1, 3 * k + 2)])
         rand = rng.random() < 0.4
-        form = rng.choice(['list', 'tuple', 'array'])
+        form = rng.choice(['list', 'tuple', 'array', 'npint'])
         yield _case1(rng, '1d/random/%s/%s%s' % ('full' if k == N else 'subset', form, '/randomized' if rand else ''),
                      N, order, rand, T=T, hist_len=rng.choice([1, 1, 1, 2, 3]), form=form)
     # ---- 1D, range objects as update_order (ascending, descending, strided), plain and randomized
@@ -214,14 +217,42 @@ def generate(rng, tier):
         k = len(cells) if rng.random() < 0.35 else rng.randint(1, len(cells))
         order = rng.sample(cells, k)
         T = rng.choice([k + 2, 2 * k + 1, 3 * k + 2 if k <= 6 else k + 3, rng.randint(1, k + 3)])
-        yield _case2(rng, '2d/random/%s' % ('full' if k == len(cells) else 'subset'), R, C, order, rng.random() < 0.4,
-                     T=T, hist_len=rng.choice([1, 1, 2]))
+        form = rng.choice(['list', 'list', 'tuple', 'npint'])
+        yield _case2(rng, '2d/random/%s/%s' % ('full' if k == len(cells) else 'subset', form), R, C, order,
+                     rng.random() < 0.4, T=T, hist_len=rng.choice([1, 1, 2]), form=form)
     # ---- 2D, num_cells = (R, C)
     for R in range(1, 4 if not thorough else 5):
         for C in range(1, 4 if not thorough else 5):
             for rand in (False, True):
                 for _ in range(2 if not thorough else 5):
                     yield _case2(rng, '2d/num_cells', R, C, None, rand, T=rng.choice([R * C + 2, 2 * R * C + 1]))
+    # ---- dress: the rule WRAPPED by AsynchronousRule has another callable shape / return type (twins.dress), or
+    #      the AsynchronousRule object itself is an instance of a behaviour-preserving user subclass
+    reps = 4 if thorough else 1
+    hows = [(h, None) for h in twins.RULE_DRESSINGS] + [(None, 'plain'), (None, 'super'), ('starargs', 'plain'),
+                                                       ('sub:BaseRule', 'super'), ('ret0d', 'plain')]
+    for how, sub in hows:
+        tag = 'dress/%s' % (how if sub is None else ('subclass:%s%s' % (sub, '+' + how if how else '')))
+        for _ in range(reps):
+            for variant in ('order', 'order/randomized', 'num_cells'):
+                rand = variant != 'order' and (variant == 'order/randomized' or rng.random() < 0.5)
+                N = rng.randint(2, 8)
+                k = rng.randint(1, N)
+                order = None if variant == 'num_cells' else rng.sample(range(N), k)
+                L = N if order is None else k
+                c = _case1(rng, '%s/1d/%s' % (tag, variant), N, order, rand, T=rng.choice([L + 2, 2 * L + 1, 3 * L + 2]),
+                           form=rng.choice(['list', 'tuple', 'npint']))
+                c['dress'], c['subclass'] = how, sub
+                yield c
+                R, C = rng.randint(1, 3), rng.randint(1, 3)
+                cells = [[i, j] for i in range(R) for j in range(C)]
+                k = rng.randint(1, len(cells))
+                order = None if variant == 'num_cells' else rng.sample(cells, k)
+                L = len(cells) if order is None else k
+                c = _case2(rng, '%s/2d/%s' % (tag, variant), R, C, order, rand, T=rng.choice([L + 2, 2 * L + 1]),
+                           form=rng.choice(['list', 'tuple', 'npint']))
+                c['dress'], c['subclass'] = how, sub
+                yield c
     # ---- reuse: ONE rule object through two consecutive evolve calls; the first run's length is mostly not a
     #      multiple of L, so that the second call starts in the middle of the cycle (curr <> 0)
     for _ in range(900 if thorough else 150):
@@ -261,8 +292,12 @@ def _caller_order(c, np):
             return range(*c['range']), lambda o: [int(x) for x in o]
         if form == 'array' and order:
             return np.array(order), lambda o: [int(x) for x in o.tolist()]
+        if form == 'npint':                       # a list whose items are NumPy integers
+            return [np.int64(x) for x in order], lambda o: [int(x) for x in o]
         return order, lambda o: [int(x) for x in o]
     order = [tuple(x) for x in c['order']]
+    if form == 'npint':                           # coordinates built from NumPy integers (e.g. from np.argwhere)
+        order = [(np.int64(x[0]), np.int32(x[1])) for x in order]
     if form == 'tuple':
         order = tuple(order)
     return order, lambda o: [[int(x[0]), int(x[1])] for x in o]
@@ -286,6 +321,30 @@ def run_impl(c):
 
     dim = c['dim']
     inner = (twins.Logged1 if dim == 1 else twins.Logged2)(twins.make_rule(c['rule'], dim))
+    # what AsynchronousRule is given: the logged rule, possibly in another callable shape / with another return type
+    wrapped = twins.dress(inner, c.get('dress'))
+    async_cls = cpl.AsynchronousRule
+    if c.get('subclass') == 'plain':
+        class UserAsync(cpl.AsynchronousRule):
+            pass
+        async_cls = UserAsync
+    elif c.get('subclass') == 'super':
+        class UserAsyncSuper(cpl.AsynchronousRule):
+            def __init__(self, *a, **kw):
+                super().__init__(*a, **kw)
+
+            def __call__(self, n, c, t):
+                return super().__call__(n, c, t)
+
+            def _should_update(self, *a):
+                return super()._should_update(*a)
+
+            def _check_for_end_of_cycle(self, *a):
+                return super()._check_for_end_of_cycle(*a)
+
+            def _current_cell_value(self, *a):
+                return super()._current_cell_value(*a)
+        async_cls = UserAsyncSuper
 
     def logs():
         if dim == 1:
@@ -302,12 +361,12 @@ def run_impl(c):
         res = {}
         if c['order'] is None:
             num_cells = len(c['hist'][-1]) if dim == 1 else (len(c['hist'][-1]), len(c['hist'][-1][0]))
-            rule = cpl.AsynchronousRule(apply_rule=inner, num_cells=num_cells, randomize_each_cycle=c['rand'])
+            rule = async_cls(apply_rule=wrapped, num_cells=num_cells, randomize_each_cycle=c['rand'])
             order, read = None, None
         else:
             order, read = _caller_order(c, np)
             res['caller_type_before'] = type(order).__name__
-            rule = cpl.AsynchronousRule(apply_rule=inner, update_order=order, randomize_each_cycle=c['rand'])
+            rule = async_cls(apply_rule=wrapped, update_order=order, randomize_each_cycle=c['rand'])
         out = ev(rule, hist, c['T'])
         res['rows'] = np.asarray(out).tolist()
         if c.get('reuse'):
@@ -436,6 +495,8 @@ def oracle(c, obs):
 
 
 def shrink(c):
+    if c.get('dress') or c.get('subclass'):
+        yield dict(c, dress=None, subclass=None)
     if c.get('reuse'):
         if c['reuse']['T2'] > 2:
             yield dict(c, reuse=dict(c['reuse'], T2=c['reuse']['T2'] - 1))
